@@ -375,7 +375,7 @@ def run(ck: core.Check):
         ck.broken("correspondence", "C14 driver", str(e))
         drv = None
 
-    n_oracle = ck.pick(500, 6000)
+    n_oracle = ck.pick(800, 6000)
     n_collect = ck.pick(400, 4000)
     n_sem = ck.pick(250, 2500)
     tasks = ([(ck.seed, i, "oracle") for i in range(n_oracle)]
@@ -463,14 +463,22 @@ def run(ck: core.Check):
                 uniq.append(rec)
         outs = drv.ask_many("C14", [{"k": "policy", "body": rec["body"], "model": rec["model"]} for rec in uniq])
         mism = 0
+        not_sub = 0
         for rec, o in zip(uniq, outs):
             got = sorted(o.get("imports", []))
+            # hypothesis of imports_agree_with_model: body requirements are among the model's
+            norm = lambda p: ["" if p[0] == "ai.onnx" else p[0], p[1]]  # noqa: E731
+            if not all(norm(p) in [norm(q) for q in rec["model"]] for p in rec["body"]):
+                not_sub += 1
+                if not_sub <= 2:
+                    ck.broken("correspondence", "C14 body requirements not part of the model's requirements",
+                              f"record={rec}")
             if got != rec["real"]:
                 mism += 1
                 if mism <= 3:
                     ck.broken("correspondence", "C14 function opset imports (max policy)",
                               f"record={rec} model={o}")
-        ck.cov["imports"] = {"distinct_records": len(uniq), "mismatches": mism}
+        ck.cov["imports"] = {"distinct_records": len(uniq), "mismatches": mism, "body_req_not_in_model_req": not_sub}
         # ---- (c) semantics
         sem = [r for r in results if r["mode"] == "sem"]
         outs = drv.ask_many("C14", [{"k": "sem", "prog": r["prog"], "env": r["env"]} for r in sem])
